@@ -572,3 +572,72 @@ func FuzzMetricLine(f *testing.F) {
 		}
 	})
 }
+
+// TestSparseResourceInBigFile: one big log file (no roll), about a thousand busy resources per second for a hundred-odd
+// seconds, and one sparse resource with a single line in some of the seconds (always in the first and the last). A search
+// by that resource over the whole range returns every one of its lines, however many lines of other resources lie between
+// them (the reader's own safety limits are about returned items, far above what is asked for here).
+func TestSparseResourceInBigFile(t *testing.T) {
+	hx.Check(t, hx.N{Quick: 2, Thorough: 6}, func(t *rapid.T, c *hx.Case) {
+		caseNo++
+		dir := filepath.Join(root, fmt.Sprintf("big-%s-%d", os.Getenv("VERIF_SHARD"), caseNo))
+		os.MkdirAll(dir, 0o755)
+		defer os.RemoveAll(dir)
+		ent := config.NewDefaultConfig()
+		ent.Sentinel.Log.Dir = dir
+		config.ResetGlobalConfig(ent)
+		defer config.ResetGlobalConfig(config.NewDefaultConfig())
+		t0 := hx.Epoch - hx.Epoch%86400000 + 3600000 // far from midnight: one file
+		hx.C.SetMs(t0)
+		w, err := metric.NewDefaultMetricLogWriterOfApp(1<<30, 3, "app")
+		if err != nil {
+			t.Fatalf("writer: %v", err)
+		}
+		defer w.(interface{ Close() error }).Close()
+		secs := rapid.IntRange(101, 112).Draw(t, "seconds")
+		busy := rapid.IntRange(1000, 1100).Draw(t, "busyResourcesPerSecond")
+		sparseAt := rapid.IntRange(0, busy).Draw(t, "positionOfTheSparseLine")
+		want := 0
+		for s := 0; s < secs; s++ {
+			ts := t0 + 1000 + uint64(s)*1000
+			items := make([]*base.MetricItem, 0, busy+1)
+			has := s == 0 || s == secs-1 || rapid.IntRange(0, 2).Draw(t, "sparseInThisSecond") > 0
+			for k := 0; k < busy; k++ {
+				if has && k == sparseAt {
+					items = append(items, &base.MetricItem{Resource: "sparse", Timestamp: ts - ts%1000, PassQps: uint64(s + 1)})
+				}
+				items = append(items, &base.MetricItem{Resource: fmt.Sprint("busy-", k), Timestamp: ts - ts%1000, PassQps: 1})
+			}
+			if has && sparseAt == busy {
+				items = append(items, &base.MetricItem{Resource: "sparse", Timestamp: ts - ts%1000, PassQps: uint64(s + 1)})
+			}
+			if has {
+				want++
+			}
+			if err := w.Write(ts, items); err != nil {
+				t.Fatalf("Write: %v", err)
+			}
+		}
+		if files := dataFiles(dir); len(files) != 1 {
+			t.Fatalf("expected one log file, found %v", files)
+		}
+		s, err := metric.NewDefaultMetricSearcher(dir, metric.FormMetricFileName("app", false))
+		if err != nil {
+			t.Fatalf("searcher: %v", err)
+		}
+		got, err := s.FindByTimeAndResource(t0, t0+uint64(secs+2)*1000, "sparse")
+		if err != nil {
+			t.Fatalf("search: %v", err)
+		}
+		c.Op("%d seconds x %d busy resources (%d lines), sparse resource in %d seconds: %d returned", secs, busy, secs*busy, want, len(got))
+		if len(got) != want {
+			t.Fatalf("the sparse resource has %d lines among %d lines of one file; the search by resource over the whole range returned %d", want, secs*busy+want, len(got))
+		}
+		for i, it := range got {
+			if it.Resource != "sparse" || (i > 0 && it.Timestamp < got[i-1].Timestamp) {
+				t.Fatalf("item %d: %+v (wrong resource or out of timestamp order)", i, it)
+			}
+		}
+		c.NonTrivial()
+	})
+}
